@@ -63,14 +63,22 @@ where
     }
 
     fn is_bareword(s: &str) -> bool {
+        // A bareword starts with a letter, and the tokenizer splits a word that
+        // begins with a boolean or NULL literal, so those need their quotes.
         match s.chars().nth(0) {
             Some(c) => {
-                if !(c.is_ascii_alphabetic() || c == '_') {
+                if !c.is_ascii_alphabetic() {
                     return false;
                 }
             }
             None => return false,
         };
+        if s != "true"
+            && s != "false"
+            && (s.starts_with("true") || s.starts_with("false") || s.starts_with("NULL"))
+        {
+            return false;
+        }
         for c in s.chars() {
             if !(c.is_ascii_alphabetic() || c == '_') {
                 return false;
@@ -212,7 +220,15 @@ where
             Value::Boolean(b) => write!(self.w, "{}", if b.val { "true" } else { "false" })?,
             Value::Empty(_) => write!(self.w, "NULL")?,
             // TODO(jwall): We should maintain precision for floats?
-            Value::Float(f) => write!(self.w, "{}", f.val)?,
+            Value::Float(f) => {
+                // Keep the fraction so the literal is read back as a float.
+                let text = format!("{}", f.val);
+                if text.contains('.') {
+                    write!(self.w, "{}", text)?
+                } else {
+                    write!(self.w, "{}.0", text)?
+                }
+            }
             Value::Int(i) => write!(self.w, "{}", i.val)?,
             Value::Str(s) => write!(self.w, "\"{}\"", Self::escape_quotes(&s.val))?,
             Value::Symbol(s) => write!(self.w, "{}", s.val)?,
@@ -523,8 +539,8 @@ where
                 self.render_expr(&_def.start)?;
                 write!(self.w, ":")?;
                 if let Some(ref e) = _def.step {
-                    write!(self.w, ":")?;
                     self.render_expr(e)?;
+                    write!(self.w, ":")?;
                 }
                 self.render_expr(&_def.end)?;
             }
